@@ -1,4 +1,5 @@
 import IpamVerif.System
+import IpamVerif.OnePer
 /-!
 # C10 — handling the same ClusterCIDR again has no additional effect
 -/
@@ -135,5 +136,43 @@ theorem delFirst_removed_count (key name : String) : ∀ (l l' : List CC),
         exact this
 
 example : (Alloc.mk []).createCC "a" ⟨none, 4, .ok ⟨.v4, 0x0a000000, 24⟩ "10.0.0.0/24", .empty⟩ false ≠ none := by decide
+
+/-- the count of entries filed for an object is the multiplicity of its (key, name) pair -/
+theorem entriesFor_eq_count (a : Alloc) (key name : String) : entriesFor a key name = (OnePer.KN a).count (key, name) := by
+  unfold entriesFor OnePer.KN
+  induction a.ccs with
+  | nil => rfl
+  | cons c t ih =>
+    simp only [List.filter_cons, List.map_cons, List.count_cons]
+    by_cases h : (c.key == key && c.name == name) = true
+    · have hk : OnePer.kn c = (key, name) := by
+        simp only [Bool.and_eq_true, beq_iff_eq] at h
+        unfold OnePer.kn; rw [h.1, h.2]
+      simp [h, hk, ih]
+    · have hk : ¬ OnePer.kn c = (key, name) := by
+        intro he
+        unfold OnePer.kn at he
+        simp only [Prod.mk.injEq] at he
+        exact h (by simp [he.1, he.2])
+      simp [h, hk, ih]
+
+/-- **C10 over whole histories, with no assumption**: whatever happens — the same ClusterCIDR processed again after
+a failed write, duplicate or stale notifications, a restart picking it up again, deletions and re-creations — an
+object (selector key, name) is never mapped more than once: it contributes at most one pool per family. -/
+theorem one_entry_per_object_always (s : Sys) (hs : ∀ key name, entriesFor s.alloc key name ≤ 1) (evs : List Ev) :
+    ∀ key name, entriesFor (run s evs).alloc key name ≤ 1 := by
+  have h0 : OnePer.NoDupKN s.alloc := by
+    unfold OnePer.NoDupKN
+    rw [List.nodup_iff_count]
+    intro x
+    rw [← entriesFor_eq_count]; exact hs x.1 x.2
+  have := OnePer.nodup_run evs s h0
+  intro key name
+  rw [entriesFor_eq_count]
+  exact List.nodup_iff_count.mp this (key, name)
+
+/-- in particular from the empty controller, through any number of restarts -/
+theorem one_entry_per_object_from_start (evs : List Ev) : ∀ key name, entriesFor (run Sys.init evs).alloc key name ≤ 1 :=
+  one_entry_per_object_always Sys.init (fun _ _ => by simp [entriesFor, Sys.init]) evs
 
 end Ipam.C10
